@@ -16,6 +16,9 @@ namespace nfl { void fastrandombytes(unsigned char* r, unsigned long long len) {
 } }
 #include <gmp.h>
 #include <mpfr.h>
+#include <new>
+#include <cstring>
+#include <cstdlib>
 #define private public
 #include "nfl/prng/FastGaussianNoise.hpp"
 #undef private
@@ -23,9 +26,10 @@ namespace nfl { void fastrandombytes(unsigned char* r, unsigned long long len) {
 static bool quiet, probes;
 template <class IN, unsigned D> static void run(double sigma, unsigned lambda, unsigned m, const std::string& center, const std::string& ctor, unsigned long rlen, std::ostringstream& os) {
   typedef nfl::FastGaussianNoise<IN, uint32_t, D> G;
-  G* g;
-  if (ctor[0] == 'd') g = new G(sigma, lambda, m, atof(center.c_str()));
-  else { mpfr_t c; mpfr_init2(c, atoi(ctor.c_str() + 2)); mpfr_set_str(c, center.c_str(), 10, MPFR_RNDN); g = new G(sigma, lambda, m, c); mpfr_clear(c); }
+  // the object is built in storage that held other data before (0x5a pattern): a member a constructor forgets to set is then visibly indeterminate
+  G* g; void* mem = malloc(sizeof(G)); memset(mem, 0x5a, sizeof(G));
+  if (ctor[0] == 'd') g = new (mem) G(sigma, lambda, m, atof(center.c_str()));
+  else { mpfr_t c; mpfr_init2(c, atoi(ctor.c_str() + 2)); mpfr_set_str(c, center.c_str(), 10, MPFR_RNDN); g = new (mem) G(sigma, lambda, m, c); mpfr_clear(c); }
   int nb = (int)g->_number_of_barriers;
   os << "wp=" << g->_word_precision << " nb=" << nb << " vmin=" << (-(nb - 1) / 2 + g->rounded_center) << " f1=" << g->_flag_ctr1 << " f2=" << g->_flag_ctr2 << " B=";
   if (quiet) os << "-"; else for (int i = 0; i < nb; i++) { for (unsigned j = 0; j < g->_word_precision; j++) { char h[8]; sprintf(h, sizeof(IN) == 1 ? "%02x" : "%04x", (unsigned)g->barriers[i][j]); os << h; } os << (i + 1 < nb ? "," : ""); }
@@ -36,7 +40,7 @@ template <class IN, unsigned D> static void run(double sigma, unsigned lambda, u
   os << " | out=";
   for (unsigned long i = 0; i < rlen; i++) os << " " << (int32_t)out[2 + i];
   os << ((out[0] == 0xDEADBEEFu && out[1] == 0xDEADBEEFu && out[rlen + 2] == 0xDEADBEEFu && out[rlen + 3] == 0xDEADBEEFu) ? "" : " OUTPUT-OVERRUN");
-  delete g;
+  g->~G(); free(mem);
 }
 
 int main() {
